@@ -33,7 +33,7 @@ TOLERANCES = {'dict': 'exact equality of json.dumps(to_dict(wn), sort_keys=True)
               'results': '1e-4 m / 1e-6 m3/s + 1e-5 rel, plus two seconds of tank flow per partial step solved so far '
                          '(refs/c10_compare.py); solver TOL 1e-8'}
 
-OPS = ['W', 'E', 'C', 'J', 'P', 'R']
+OPS = ['W', 'E', 'C', 'J', 'P', 'R', 'S']
 
 
 @st.composite
@@ -155,8 +155,13 @@ def check(case):
                         'to_dict() differs after %s (history %s): %s' % (after, case['ops'], diff[:600]), tags)
         return None
 
-    def run(model):
-        return S.run_wntr(model, hw_approx=hw, tol=1e-8)
+    sims = {}
+
+    def run(model, reuse=False):
+        # reuse: run with the simulator object that ran this model before (W creates a new WNTRSimulator every time)
+        r_ = S.run_wntr(model, hw_approx=hw, tol=1e-8, sim=sims.get(id(model)) if reuse else None)
+        sims[id(model)] = r_.sim
+        return r_
 
     for i, op in enumerate(case['ops']):
         if op == 'R':
@@ -200,8 +205,10 @@ def check(case):
             if bad:
                 return bad
             dirty = False
-        if op == 'W':
+        if op in ('W', 'S'):
             model, label = wn, ('rerun after reset_initial_values' if ref is not None else 'first run')
+            if op == 'S' and ref is not None:
+                label = 'rerun after reset_initial_values with the same simulator object'
             dirty = True
         elif op == 'C':
             model, label = copy.deepcopy(wn), 'deepcopy'
@@ -213,11 +220,11 @@ def check(case):
             except Exception as e:
                 return fail(exc_bucket(e, 'json_reload'), 'from_dict(json(to_dict)) raised %r' % e, tags)
             label = 'JSON-reloaded model'
-        r = run(model)
+        r = run(model, reuse=(op == 'S'))
         bad = same_dict(model if op != 'J' else wn, 'WNTRSimulator')
         if bad and op != 'J':
             return bad
-        if op != 'W':
+        if op not in ('W', 'S'):
             bad = same_dict(wn, 'run_of_a_copy')     # running a copy must not touch the original either
             if bad:
                 return bad
@@ -248,7 +255,7 @@ def check(case):
             if res[0] == 'inconclusive':
                 incon = res[1]
                 break
-            kind = {'W': 'rerun', 'C': 'deepcopy', 'P': 'pickle', 'J': 'json'}[op]
+            kind = {'W': 'rerun', 'S': 'rerun_same_simulator', 'C': 'deepcopy', 'P': 'pickle', 'J': 'json'}[op]
             return fail('results/%s/%s' % (kind, res[1]), res[2] + ' (history %s)' % case['ops'], tags)
     if clobbered:
         return fail('definition_changed/pump_speed_control/links.base_speed', clobbered[0], tags)
